@@ -316,3 +316,85 @@ func RenderTry(stmts []*TNode, history []int, wrapper int) (src string, exits ma
 	t.line("return \"M\"")
 	return t.sb.String(), t.Exits
 }
+
+// RecursionTryMatrix enumerates self-recursive functions whose recursive call sits at every position
+// relative to a try statement (in the try body, in the catch body, in the finally body, after the
+// statement), in every call form (returned, discarded as last statement, bound to a variable, passed to
+// L), with every base-case outcome (throw, runtime error, value) placed outside or inside the try body,
+// for every try kind and two depths; followed by later calls at the same call depth (stale per-frame
+// state left behind by unwinding must not influence them).
+func RecursionTryMatrix() []string {
+	var out []string
+	bases := map[string]string{
+		"throw": "if n == 0 {\n    throw \"boom\"\n  }",
+		"rterr": "if n == 0 {\n    return [1][5]\n  }",
+		"value": "if n == 0 {\n    return \"base\"\n  }",
+	}
+	calls := map[string]string{
+		"return":    "return f(n - 1)",
+		"discarded": "f(n - 1)",
+		"bound":     "x := f(n - 1)\n    return x",
+		"logged":    "L(\"r\", n, f(n - 1))",
+	}
+	for _, bk := range []string{"throw", "rterr", "value"} {
+		for _, basePos := range []string{"outside", "inside"} {
+			for _, ck := range []string{"return", "discarded", "bound", "logged"} {
+				for _, callPos := range []string{"try", "catch", "finally", "after"} {
+					for _, tk := range []string{"c", "f", "cf"} {
+						if callPos == "catch" && tk == "f" {
+							continue
+						}
+						if callPos == "finally" && tk == "c" {
+							continue
+						}
+						for _, depth := range []int{1, 3} {
+							var sb strings.Builder
+							sb.WriteString("global L\nhelper := func(x) {\n  return x * 2\n}\nvar f\nf = func(n) {\n  L(\"enter\", n)\n")
+							if basePos == "outside" {
+								sb.WriteString("  " + bases[bk] + "\n")
+							}
+							sb.WriteString("  try {\n")
+							if basePos == "inside" {
+								sb.WriteString("  " + strings.ReplaceAll(bases[bk], "\n", "\n  ") + "\n")
+							}
+							if callPos == "try" {
+								sb.WriteString("    " + calls[ck] + "\n")
+							} else if callPos == "catch" {
+								sb.WriteString("    if n > 0 {\n      throw \"go-catch\"\n    }\n")
+							} else {
+								sb.WriteString("    L(\"try\", n)\n")
+							}
+							if tk != "f" {
+								sb.WriteString("  } catch e {\n    L(\"c\", n, e.Message == \"\" ? e.Name : e.Message)\n")
+								if callPos == "catch" {
+									sb.WriteString("    " + calls[ck] + "\n")
+								} else {
+									sb.WriteString("    return \"caught@\" + n\n")
+								}
+							}
+							if tk != "c" {
+								sb.WriteString("  } finally {\n    L(\"fin\", n)\n")
+								if callPos == "finally" {
+									sb.WriteString("    if n > 0 {\n      " + strings.ReplaceAll(calls[ck], "\n    ", "\n      ") + "\n    }\n")
+								}
+							}
+							sb.WriteString("  }\n")
+							if callPos == "after" {
+								sb.WriteString("  " + strings.ReplaceAll(calls[ck], "\n    ", "\n  ") + "\n")
+							}
+							sb.WriteString("}\n")
+							sb.WriteString(fmt.Sprintf("try {\n  L(\"top\", f(%d))\n} catch ex {\n  L(\"escaped\", ex.Message == \"\" ? ex.Name : ex.Message)\n}\n", depth))
+							sb.WriteString("L(\"after\", helper(21))\n")
+							sb.WriteString("g := func() {\n  return helper(4) + 1\n}\nL(\"g\", g())\n")
+							sb.WriteString("try {\n  L(\"again\", f(0))\n} catch ex2 {\n  L(\"escaped2\", ex2.Message == \"\" ? ex2.Name : ex2.Message)\n}\n")
+							sb.WriteString("thrower := func() {\n  return [1][7]\n}\ntry {\n  thrower()\n} catch ex3 {\n  L(\"depth1-error\", ex3.Name)\n}\n")
+							sb.WriteString("return helper(1)\n")
+							out = append(out, sb.String())
+						}
+					}
+				}
+			}
+		}
+	}
+	return out
+}
